@@ -93,6 +93,14 @@ pub struct Dist {
     pub nullp: u64,
     /// nulls among the ITEMS of list-like columns (a separate switch: C27's finding classes live there)
     pub item_nulls: bool,
+    /// null lists (when false every list is valid: the "all valid list" layer of the 2.1 rep/def encoding)
+    pub list_nulls: bool,
+    /// all batches of a dictionary column share one dictionary (required by the legacy format)
+    pub shared_dict: bool,
+    /// never generate "" / empty binary values (the legacy format conflates them with NULL)
+    pub no_empty_str: bool,
+    /// longest generated string / binary value in bytes
+    pub max_str: u64,
 }
 
 fn isnull(r: &mut Rng, d: &Dist) -> bool {
@@ -100,6 +108,9 @@ fn isnull(r: &mut Rng, d: &Dist) -> bool {
 }
 fn item_null(r: &mut Rng, d: &Dist) -> bool {
     d.item_nulls && r.below(100) < d.nullp
+}
+fn list_null(r: &mut Rng, d: &Dist) -> bool {
+    d.list_nulls && isnull(r, d)
 }
 
 fn pq_fields() -> Fields {
@@ -166,12 +177,15 @@ fn int_val(r: &mut Rng, d: &Dist, i: usize) -> i64 {
 fn str_val(r: &mut Rng, d: &Dist, i: usize) -> String {
     match d.mode {
         2 => "same".into(),
-        3 => match r.below(4) {
-            0 => String::new(),
-            1 => "x".repeat(r.below(300) as usize),
-            2 => "\u{e9}\u{4e2d}\u{1F600}".repeat(r.below(5) as usize),
-            _ => format!("k{}", i),
-        },
+        3 => {
+            let lo = if d.no_empty_str { 1 } else { 0 };
+            match r.below(4) {
+                0 if !d.no_empty_str => String::new(),
+                1 => "x".repeat(r.range(lo, d.max_str.max(1) - 1) as usize),
+                2 => "\u{e9}\u{4e2d}\u{1F600}".repeat(r.range(lo, 4) as usize),
+                _ => format!("k{}", i),
+            }
+        }
         _ => format!("s{}\u{e9}{}", r.below(50), i % 7),
     }
 }
@@ -199,7 +213,7 @@ fn gen_pq(r: &mut Rng, d: &Dist, n: usize, struct_nulls: bool) -> StructArray {
 
 fn gen_list_i32(r: &mut Rng, d: &Dist, n: usize) -> ListArray {
     ListArray::from_iter_primitive::<Int32Type, _, _>((0..n).map(|i| {
-        if isnull(r, d) {
+        if list_null(r, d) {
             None
         } else {
             let len = if d.mode == 3 { r.below(40) } else { r.below(4) };
@@ -270,7 +284,7 @@ pub fn gen_col(k: Kind, r: &mut Rng, d: &Dist, n: usize) -> ArrayRef {
         Kind::LargeListUtf8 => {
             let mut b = LargeListBuilder::new(StringBuilder::new());
             for i in 0..n {
-                if isnull(r, d) {
+                if list_null(r, d) {
                     b.append(false);
                 } else {
                     for _ in 0..r.below(4) {
@@ -295,28 +309,42 @@ pub fn gen_col(k: Kind, r: &mut Rng, d: &Dist, n: usize) -> ArrayRef {
                         b.values().append_value(f64_val(r, d, i) as f32);
                     }
                 }
-                b.append(!isnull(r, d));
+                b.append(!list_null(r, d));
             }
             Arc::new(b.finish())
         }
         Kind::StructPQ => Arc::new(gen_pq(r, d, n, true)),
         Kind::DictI32Utf8 => {
-            let v: Vec<Option<String>> = (0..n).map(|i| if isnull(r, d) { None } else { Some(format!("d{}", if d.mode == 2 { 0 } else { (i as u64 + r.below(5)) % 9 })) }).collect();
-            let a: DictionaryArray<Int32Type> = v.iter().map(|x| x.as_deref()).collect();
-            Arc::new(a)
+            let v: Vec<Option<usize>> = (0..n).map(|i| if isnull(r, d) { None } else { Some(if d.mode == 2 { 0 } else { ((i as u64 + r.below(5)) % 9) as usize }) }).collect();
+            if d.shared_dict || v.iter().all(|x| x.is_none()) {
+                let dict = StringArray::from((0..9).map(|j| format!("d{j}")).collect::<Vec<_>>());
+                let keys: Int32Array = v.iter().map(|x| x.map(|j| j as i32)).collect();
+                Arc::new(DictionaryArray::<Int32Type>::try_new(keys, Arc::new(dict)).unwrap())
+            } else {
+                let sv: Vec<Option<String>> = v.iter().map(|x| x.map(|j| format!("d{j}"))).collect();
+                let a: DictionaryArray<Int32Type> = sv.iter().map(|x| x.as_deref()).collect();
+                Arc::new(a)
+            }
         }
         Kind::DictI8Utf8 => {
-            let v: Vec<Option<String>> = (0..n).map(|i| if isnull(r, d) { None } else { Some(format!("e{}", (i as u64 + r.below(3)) % 5)) }).collect();
-            let a: DictionaryArray<Int8Type> = v.iter().map(|x| x.as_deref()).collect();
-            Arc::new(a)
+            let v: Vec<Option<usize>> = (0..n).map(|i| if isnull(r, d) { None } else { Some(((i as u64 + r.below(3)) % 5) as usize) }).collect();
+            if d.shared_dict || v.iter().all(|x| x.is_none()) {
+                let dict = StringArray::from((0..5).map(|j| format!("e{j}")).collect::<Vec<_>>());
+                let keys: Int8Array = v.iter().map(|x| x.map(|j| j as i8)).collect();
+                Arc::new(DictionaryArray::<Int8Type>::try_new(keys, Arc::new(dict)).unwrap())
+            } else {
+                let sv: Vec<Option<String>> = v.iter().map(|x| x.map(|j| format!("e{j}"))).collect();
+                let a: DictionaryArray<Int8Type> = sv.iter().map(|x| x.as_deref()).collect();
+                Arc::new(a)
+            }
         }
         Kind::ListStruct => {
             // struct items are never null (List<Struct> with null items is C25/C27's finding F21)
             let lens: Vec<usize> = (0..n).map(|_| r.below(3) as usize).collect();
             let tot: usize = lens.iter().sum();
-            let dd = Dist { mode: d.mode, nullp: if d.item_nulls { d.nullp } else { 0 }, item_nulls: d.item_nulls };
+            let dd = Dist { nullp: if d.item_nulls { d.nullp } else { 0 }, mode: if !d.item_nulls && d.mode == 1 { 0 } else { d.mode }, ..*d };
             let inner = gen_pq(r, &dd, tot, false);
-            let nulls = NullBuffer::from((0..n).map(|i| !(lens[i] == 0 && isnull(r, d))).collect::<Vec<bool>>());
+            let nulls = NullBuffer::from((0..n).map(|i| !(lens[i] == 0 && list_null(r, d))).collect::<Vec<bool>>());
             let f = Arc::new(Field::new("item", DataType::Struct(pq_fields()), true));
             Arc::new(ListArray::try_new(f, OffsetBuffer::from_lengths(lens), Arc::new(inner), Some(nulls)).unwrap())
         }
@@ -331,7 +359,7 @@ pub fn gen_col(k: Kind, r: &mut Rng, d: &Dist, n: usize) -> ArrayRef {
         Kind::ListList => {
             let mut b = ListBuilder::new(ListBuilder::new(Int32Builder::new()));
             for i in 0..n {
-                if isnull(r, d) {
+                if list_null(r, d) {
                     b.append(false);
                 } else {
                     for _ in 0..r.below(3) {
@@ -432,6 +460,13 @@ pub fn normalize(a: &ArrayRef, version: LanceFileVersion) -> ArrayRef {
             let nulls = if legacy { None } else { l.nulls().cloned() };
             Arc::new(FixedSizeListArray::try_new(f.clone(), *sz, vals, nulls).unwrap())
         }
+        DataType::Dictionary(_, _) if legacy => {
+            // the keys are a primitive array: no validity in 0.1, a null key reads back as key 0
+            use arrow_array::cast::AsArray;
+            let any = a.as_any_dictionary();
+            let keys: ArrayRef = zero_fill(&make_array(any.keys().to_data()));
+            arrow_select::take::take(any.values().as_ref(), keys.as_ref(), None).unwrap()
+        }
         DataType::Utf8 | DataType::LargeUtf8 | DataType::Binary | DataType::LargeBinary | DataType::Dictionary(_, _) => a.clone(),
         _ => {
             if legacy {
@@ -451,30 +486,39 @@ fn canon(a: &ArrayRef) -> ArrayRef {
     }
 }
 
-/// first difference between expected and got, or None
-pub fn diff_batches(expected: &RecordBatch, got: &RecordBatch, version: LanceFileVersion) -> Option<String> {
-    if expected.num_rows() != got.num_rows() {
-        return Some(format!("rows {} vs {}", expected.num_rows(), got.num_rows()));
+/// first difference between the batches written (normalised per batch, then concatenated) and the scan, or None
+pub fn diff_batches(expected: &[RecordBatch], schema: &SchemaRef, got: &RecordBatch, version: LanceFileVersion) -> Option<String> {
+    let rows: usize = expected.iter().map(|b| b.num_rows()).sum();
+    if rows != got.num_rows() {
+        return Some(format!("rows {} vs {}", rows, got.num_rows()));
     }
-    if expected.num_columns() != got.num_columns() {
-        return Some(format!("columns {} vs {}", expected.num_columns(), got.num_columns()));
+    if schema.fields().len() != got.num_columns() {
+        return Some(format!("columns {} vs {}", schema.fields().len(), got.num_columns()));
     }
-    for (i, f) in expected.schema().fields().iter().enumerate() {
+    for (i, f) in schema.fields().iter().enumerate() {
         let Some(gc) = got.column_by_name(f.name()) else { return Some(format!("missing column {}", f.name())) };
         if got.schema().field(i).name() != f.name() {
             return Some(format!("column order: position {i} is {} expected {}", got.schema().field(i).name(), f.name()));
         }
-        let ec = expected.column(i);
-        if ec.data_type() != gc.data_type() {
-            return Some(format!("column {} type {:?} vs {:?}", f.name(), ec.data_type(), gc.data_type()));
+        if f.data_type() != gc.data_type() {
+            return Some(format!("column {} type {:?} vs {:?}", f.name(), f.data_type(), gc.data_type()));
         }
-        let en = canon(&normalize(ec, version));
+        // per batch: the dictionary a null key falls back to (0.1) is the dictionary of THAT batch
+        let parts: Vec<ArrayRef> = expected.iter().map(|b| canon(&normalize(b.column(i), version))).collect();
         let gn = canon(gc);
+        let en: ArrayRef = if parts.is_empty() {
+            arrow_array::new_empty_array(gn.data_type())
+        } else {
+            arrow_select::concat::concat(&parts.iter().map(|p| p.as_ref()).collect::<Vec<_>>()).unwrap()
+        };
         if en.to_data() != gn.to_data() {
             for r in 0..en.len() {
                 if en.slice(r, 1).to_data() != gn.slice(r, 1).to_data() {
-                    let show = |a: &ArrayRef| format!("{:?}", a.slice(r, 1)).replace('\n', " ").chars().take(160).collect::<String>();
-                    return Some(format!("column {} ({:?}) row {}: expected {} got {}", f.name(), ec.data_type(), r, show(&en), show(&gn)));
+                    let show = |a: &ArrayRef| {
+                        let opts = arrow_cast::display::FormatOptions::default().with_null("NULL");
+                        arrow_cast::display::ArrayFormatter::try_new(a.as_ref(), &opts).map(|f| f.value(r).to_string()).unwrap_or_else(|_| "?".into()).chars().take(200).collect::<String>()
+                    };
+                    return Some(format!("column {} row {}: expected {} got {}", f.name(), r, show(&en), show(&gn)));
                 }
             }
             return Some(format!("column {} differs (no single row)", f.name()));
